@@ -180,3 +180,46 @@ def budget_predicate(ctx, rule):
         okn = all(const_val(flds.get(n)) == 0 for n in ('next_tx_idx', 'next_input_idx', 'next_output_idx')) and P.param('block')(flds.get('block')) and \
             P.call('*::default')(flds.get('utxos_delta'))
         ctx.check(okn, rule, 'resume-state-initial', nb, 'a fresh resume state starts at transaction 0, input 0, output 0 with an empty delta', 'IngestingBlock::new = %s' % show(r)[:200])
+
+
+def depth_recursions(ctx, rule):
+    """C03: the two depth measures the stability decision compares — accumulated difficulty and block
+    count of the deepest descendant chain — and where a block's difficulty comes from"""
+    prog = ctx.prog
+    from sa.util import find_locals, is_var
+    for name, unit in (('difficulty_based_depth', P.call('*::DifficultyBasedDepth::new', P.call('*::difficulty', P.field('root', P.param('self'))))),
+                       ('depth', P.call('*::Depth::new', P.const(1)))):
+        f = ctx.fn(rule, BT + 'BlockTree::' + name)
+        if not f:
+            continue
+        NEXT = P.call('*::next', P.has(P.call('core::slice::iter', P.field('children', P.param('self')))))
+        acc = find_locals(prog, f, lambda e, l: P.call('*::new', P.const(0))(e), lambda e, l: P.call('max', P.anything, P.anything)(e))
+        ok = False
+        if len(acc) == 1:
+            A = is_var(acc[0])
+            rows = table(prog, f, acc[0])
+            rec = P.call(BT + 'BlockTree::' + name, P.has(P.downcast('Some', NEXT)))
+            step = [r for r in rows if (P.call('max', rec, A)(r[1]) or P.call('max', A, rec)(r[1])) and P.exactly(r[2], [P.is_(NEXT, 'Some')])]
+            fin = [r for r in rows if P.call('*::add', A, unit)(r[1]) and P.exactly(r[2], [P.is_(NEXT, 'None')])]
+            ret = table(prog, f)
+            ok = len(rows) == 3 and len(step) == 1 and len(fin) == 1 and len(ret) == 1 and A(ret[0][1])
+            names = {(c.gshort or c.short or '?').rsplit('::', 1)[-1] for c in f.calls() if not c.cleanup}
+            ok = ok and names <= {'iter', 'into_iter', 'next', 'new', 'max', 'add', 'difficulty', name, 'deref', 'clone'}
+        ctx.check(ok, rule, 'atom:BlockTree::' + name, f, '%s = (max over all children of the child\'s %s) + %s' % (name, name, 'difficulty(root)' if name != 'depth' else '1'),
+                  '%s is not "maximum over all children plus the root\'s own contribution"' % name)
+    nc = ctx.fn(rule, BT + 'CachedBlock::new_cached')
+    if nc:
+        aggs = [ex(prog, nc).rvalue(st['rv']) for b in nc.blocks for st in b['stmts'] if (st.get('rv') or {}).get('agg') == 'adt' and st['rv']['adt'].endswith('blocktree::CachedBlock')]
+        d = dict(aggs[0][4]).get('difficulty') if len(aggs) == 1 else None
+        ok = d is not None and P.call('ic_btc_types::Block::difficulty', P.param('block'), P.call('*::network', P.has(P.param('cache'))))(d)
+        ctx.check(ok, rule, 'atom:block-difficulty-provenance', nc, 'a cached block\'s difficulty = Block::difficulty(block, network of the cache)', 'CachedBlock.difficulty = %s' % (show(d)[:160] if d else aggs))
+    for name, want in (('ic_btc_types::Block::difficulty', P.call('ic_btc_types::Block::target_difficulty', P.param('network'), P.call('*::target', P.call('*::header', P.param('self'))))),
+                       ('ic_btc_types::Block::target_difficulty', P.call('*::Target::difficulty', P.param('target'), P.call('*::Params::new', P.call('*::into_bitcoin_network', P.param('network')))))):
+        f = ctx.fn(rule, name)
+        if f:
+            rows = table(prog, f)
+            # test builds (cargo feature mock_difficulty) put an override in front; production rows only
+            mock = lambda c: any(isinstance(x, tuple) and x[0] == 'field' and x[2] == 'mock_difficulty' for x in walk(c[1] if c[0] == 'is' else c))
+            rows = [(b, v, [c for c in cs if not mock(c)]) for b, v, cs in rows if not any(isinstance(x, tuple) and x[0] == 'field' and x[2] == 'mock_difficulty' for x in walk(v))]
+            ctx.check(len(rows) == 1 and not rows[0][2] and want(rows[0][1]), rule, 'atom:' + name.split('::', 1)[1], f,
+                      '%s is the target\'s difficulty under the network\'s parameters' % name.rsplit('::', 1)[-1], '%s = %s' % (name, describe_table(rows)))
